@@ -61,6 +61,11 @@ def gen_case(rng):
     for i in range(nsig):
         typ = rng.pick(["scalar", "delta", "event"])
         ts = rng.pick(["now", "deltasecs", "rfc3339", "log"])
+        if share and i == 1:
+            # two signals describing the same lines: same time-stamp group, so that they land in one event;
+            # one numeric and one textual, so that a capture can be malformed for one and fine for the other
+            ts = sigs[0]["ts"]
+            typ = "event" if sigs[0]["typ"] != "event" else rng.pick(["scalar", "delta"])
         sigs.append({"name": "s%d" % i, "tag": "v" if share and i < 2 else "t%d" % i, "typ": typ, "ts": ts})
     actors = ["a", "b", "c"][:rng.range(1, 3)]
     members = []
@@ -94,6 +99,8 @@ def gen_case(rng):
         s = rng.pick(sigs)
         if k < 12:      # a clean matching line
             val = rng.pick(EVTXT) if s["typ"] == "event" else rng.pick(GOODNUM)
+            if s["tag"] == "v" and rng.chance(1, 2):
+                val = rng.pick(EVTXT + GOODNUM)      # fine for the event signal, possibly malformed for its numeric twin
             ts = fmt_ts(s["ts"], rng, t)
             what = "match"
         elif k < 14:    # malformed value
